@@ -77,12 +77,21 @@ func Int64PtrEq(a, b *int64) bool              { panic("intrinsic") }
 func HasPrefix(s, p string) bool               { panic("intrinsic") }
 func GrpcCode(err error) int                   { panic("intrinsic") }
 func ServeRegistered(kind int) any              { panic("intrinsic") }
+func BlockOK()                                 { panic("intrinsic") }
+func NondetSelect()                            { panic("intrinsic") }
+func OnSelect(f func())                        { panic("intrinsic") }
 func IgnoreGo()                                { panic("intrinsic") }
 func SchedulerMayRefuse()                      { panic("intrinsic") }
 // GinContext: wildcards are the catch-all route parameters (*name), which gin delivers with a leading "/".
 func GinContext(method string, wildcards ...string) *gin.Context { panic("intrinsic") }
 func GinBound(kind string, i int) any           { panic("intrinsic") }
 func GinParamSent(name string) string          { panic("intrinsic") }
+func HttpSent() int                            { panic("intrinsic") }
+func HttpSentMethod(i int) string              { panic("intrinsic") }
+func HttpSentURL(i int) string                 { panic("intrinsic") }
+func HttpSentBody(i int) []byte                { panic("intrinsic") }
+func HttpSentStatus(i int) int                 { panic("intrinsic") }
+func HttpSentHeader(k string) string           { panic("intrinsic") }
 func HttpReplies() int                         { panic("intrinsic") }
 func HttpCode(i int) int                       { panic("intrinsic") }
 func HttpBody(i int) any                       { panic("intrinsic") }
@@ -98,6 +107,8 @@ func UrlString(u string) string                { panic("intrinsic") }
 func UrlValid(u string) bool                   { panic("intrinsic") }
 func JsonValid(s string) bool                  { panic("intrinsic") }
 func JsonOfString(s string) string             { panic("intrinsic") }
+func JsonDecodes(b []byte, sample any) bool      { panic("intrinsic") }
+func JsonStringField(b []byte, sample any, field string) string { panic("intrinsic") }
 func JsonUnknownFields(s string, sample any) bool { panic("intrinsic") }
 func TemplateTrouble() bool                    { panic("intrinsic") }
 func Like(s, pattern string) bool              { panic("intrinsic") }
